@@ -73,7 +73,9 @@ Definition mon_publish (ins : list N) : bool :=
               (ring_val =? tok) && (aidx_now =? w16 (old_idx + 1)) && (bad =? 0) && (m =? n) && (tok <? size)
               && (if is_ind =? 1
                   then (indirect =? 1) && (1 <? n) && (hflags =? F_INDIRECT) && (hlen =? 16 * n) && table_linked 0 es
-                  else ((indirect =? 0) || (n =? 1)) && linked size es
+                  (* a direct chain is well-formed on any queue: the property asks that indirect tables are used ONLY when enabled,
+                     not that they are used whenever they could be (an earlier version demanded `indirect = 0 or n = 1` here) *)
+                  else linked size es
                        && match es with (i, _, _, _, _) :: _ => i =? tok | [] => false end)
               && elems_match es exp (cnt n_in r0)
               && nodupb (idxs ++ others)
